@@ -65,6 +65,10 @@ CLAIMED['C20'] = dict(
     text='Machine-checked proof (Lean 4) over the INI/CLI model: for every initial file, every sequence of answers to absent inputs and EVERY prefix of it (interruption at any prompt index), the store the finally-block writes keeps everything the file provided, holds every answer given so far as typed, parses back (clean answers) to exactly file + answers-so-far, and after re-reading every answered input is provided (a re-run does not ask again). The model of the written file is compared byte for byte with the real `habutax solve --prompt-missing --writeback-input`, run in-process and interrupted at every prompt index by Ctrl-C, EOF, an exception, an unsupported form and failing lines, followed by parse-back and re-run checks.',
     note='Trusted: Lean kernel; Ini/Cli models validated differentially. Not modelled: the process being killed during the write itself (file opened with truncation) - outside the listed interruption kinds.',
     technique='Lean 4 induction over the answer script (all prefixes) + differential correspondence with injected interruptions', ref='7/C20')
+CLAIMED['C15'] = dict(
+    text='Machine-checked proof (Lean 4), in EXACT INTEGER CENTS through a proved bridge between binary64 arithmetic and cents (F64Cents: round(a+-b, 2) of cent-valued doubles is the double of the exact cent sum, comparisons agree, for amounts up to 1e13 cents): the translated programs of Form 1040 lines 34, 35a, 36, 37 of each year are checked by the kernel (rfl on the REGENERATED terms) to have the shapes whose meaning is proved once; hence in every state the solver returns, stored overpayment minus amount owed = payments minus tax, both non-negative, at most one positive, and refund + applied-to-next-year = overpayment with both non-negative, for ANY requested amount. PARTIAL: the NC balance and non-negativity of the remaining lines are checked on explored solved returns only (no verified sign analysis yet).',
+    note='Trusted: Lean kernel; translator and DSL evaluator (validated by the real stream: real solver vs model on shipped forms, bit-exact values); F64 model (bit-exact stream incl. cents family). CatWF of the translated catalogue is a hypothesis.',
+    technique='Lean 4 proof over regenerated line programs + binary64-to-cents bridge; exploration for the uncovered lines', ref='7/C15')
 NOT_YET = {}
 ALL = [f'C{i:02d}' for i in range(1, 21)]
 
